@@ -320,6 +320,7 @@ http_model_string_required(const char * s, const char * what)
 	for (i = 0; i < HTTP_STRMAX; i++) {
 		__CPROVER_precondition(__CPROVER_r_ok(s + i, 1),
 		    "string argument must be NUL-terminated inside its object");
+		__CPROVER_assume(__CPROVER_r_ok(s + i, 1));
 		if (s[i] == '\0')
 			return;
 	}
@@ -392,6 +393,7 @@ strtoumax_read(const char * p)
 
 	__CPROVER_precondition(__CPROVER_r_ok(p, 1),
 	    "strtoumax: nptr must point to a NUL-terminated string inside its object (C11 7.22.1.4)");
+	__CPROVER_assume(__CPROVER_r_ok(p, 1));	/* behaviour past a violated precondition is not explored */
 	return (*p);
 }
 #define HTTP_RD(p) strtoumax_read(p)
